@@ -9,11 +9,13 @@ FAMILIES = {
     "tree": "harness.check_tree",
     "values": "harness.check_values",
     "card": "harness.check_card",
+    "paths": "harness.check_paths",
 }
 # property -> families whose judges print verdicts for it
 PROPS = {
     "C03": ["tree"], "C04": ["tree"], "C05": ["values"], "C06": ["tree", "values", "card"],
     "C09": ["card"],
+    "C14": ["paths"],
 }
 EXPLAIN = {}
 
